@@ -51,7 +51,38 @@ func runCloseUpvalues(c *Ctx) {
 		// classify the function
 		restores, replaces, storesFrame, setsBytecode := false, false, false, false
 		var eventPos token.Pos
+		// copy(dst, src) with dst built from fpAdd(..) (unsafe.Slice(vm.fpAdd(0), n), ...)
+		// writes the frame's slots as well
+		isFrameCopy := func(e ast.Expr) bool {
+			call, ok := ast.Unparen(e).(*ast.CallExpr)
+			if !ok || len(call.Args) != 2 {
+				return false
+			}
+			id, ok := ast.Unparen(call.Fun).(*ast.Ident)
+			if !ok {
+				return false
+			}
+			if b, ok := info.Uses[id].(*types.Builtin); !ok || b.Name() != "copy" {
+				return false
+			}
+			found := false
+			ast.Inspect(call.Args[0], func(m ast.Node) bool {
+				if c2, ok := m.(*ast.CallExpr); ok {
+					if fn := Callee(info, c2); fn != nil && fn.Name() == "fpAdd" {
+						found = true
+					}
+				}
+				return true
+			})
+			return found
+		}
 		ast.Inspect(fr.Decl.Body, func(n ast.Node) bool {
+			if es, ok := n.(*ast.ExprStmt); ok && isFrameCopy(es.X) {
+				storesFrame = true
+				if eventPos == token.NoPos {
+					eventPos = es.Pos()
+				}
+			}
 			as, ok := n.(*ast.AssignStmt)
 			if !ok {
 				return true
@@ -101,6 +132,12 @@ func runCloseUpvalues(c *Ctx) {
 			return []st{s}
 		}
 		pe.Stmt = func(s st, stmt ast.Stmt) ([]st, bool) {
+			if es, ok := stmt.(*ast.ExprStmt); ok && replaces && isFrameCopy(es.X) {
+				if !s.closed {
+					s.violated = true
+				}
+				return []st{s}, true
+			}
 			as, ok := stmt.(*ast.AssignStmt)
 			if !ok {
 				return nil, false
